@@ -31,13 +31,13 @@ def cases(tier):
     for b in (2, 8, 16):
         cs.append(mk(64, b, 0, mode=1, paths=True, timeout=900))
     cs.append(mk(64, 2, 1, mode=1, paths=True, timeout=900))
-    # 64 bit truncation relation: full-length values and short values (stated slices), every buffer length
-    for b in (2, 8, 16):
-        cs.append(mk(64, b, 0, 1 << 63, (1 << 64) - 1, mode=2, paths=True, timeout=900, tag="-top"))
-        cs.append(mk(64, b, 0, 0, 255, mode=2, paths=True, timeout=900, tag="-small"))
+    # 64 bit truncation relation (monolithic): base 16 every value; bases 2 and 8 short values (stated slice) -
+    # path-wise exploration of the truncation relation did not finish in 900 s (one path per buffer length x digit count)
+    cs.append(mk(64, 16, 0, timeout=1800))
+    for b in (2, 8):
+        cs.append(mk(64, b, 0, 0, 255, timeout=1800, tag="-small"))
     if not q:
-        cs.append(mk(64, 16, 0, timeout=1800))
-        cs.append(mk(64, 8, 0, timeout=1800))
+        cs.append(mk(64, 8, 0, timeout=3000))
     # base 10 and "any other base means 10"
     hi = 9999 if q else 999999
     for w in (32, 64):
@@ -53,7 +53,7 @@ META = dict(
                 "values, 64-bit full-length and short slices; base 10 and 'other': magnitude slice per case"),
     outside=["base-10 magnitudes above the per-case slice (the digit loop's repeated division defeats every back end "
              "present beyond ~10^6, see DESIGN.md C14)",
-             "64-bit truncation relation for magnitudes in [256, 2^63) (canonical form is proved for them)",
+             "64-bit truncation relation in bases 2 and 8 for magnitudes above 255 (canonical form is proved for all of them; base 16 truncation is proved for all values)",
              "buffer lengths above 70 (output is at most 65 characters; no code path depends on larger lengths)"],
     assumptions=["len <= 70", "the truncated call's destination is a 74-byte object whose bytes at and beyond len hold an "
                  "arbitrary (symbolic) fill value that must survive"],
